@@ -2769,6 +2769,11 @@ class ReportDTCExtDataRecordByDTCNumberResponse(
     @classmethod
     def _from_pdu(cls, pdu: bytes) -> Self:
         dtc_and_status_record = pdu[2:6]
+
+        if len(pdu) == 6:
+            # The server has no extended data stored for this DTC
+            return cls(dtc_and_status_record, {})
+
         dtc_ext_data_record_number = pdu[6]
         dtc_ext_data_record = pdu[7:]
         return cls(dtc_and_status_record, {dtc_ext_data_record_number: dtc_ext_data_record})
